@@ -1,7 +1,8 @@
 /-
   Property C06 — list diffs are minimal (LCS) and carry adjacent context.
-  Statement file (proofs in JdProofs/LcsProofs.lean; the context clause is a corollary of the C01
-  list theorem of JdProofs/DiffPatchList.lean).
+  Statement file (proofs in JdProofs/LcsProofs.lean, JdProofs/DiffMinimal.lean and, for arrays that
+  hold CONTAINERS, JdProofs/ListRecursion.lean, namespace `Jd.Rec`; the first context clause is a
+  corollary of the C01 list theorem of JdProofs/DiffPatchList.lean).
 
   PART 1 (LCS). The model of github.com/yudai/golcs (`lcsValues`: the dynamic-programming table and
   the back-tracking exactly as the library does them — compared with the real library on every run
@@ -16,14 +17,93 @@
   after-context line the element following the removed ones (or the array end for `]`). So every
   context line a list diff carries IS the neighbouring element at the time the hunk applies.
   Hypotheses: those of `Jd.DPL.diffM_list_correct` (see JdProps/C01.lean).
+  Then, for ARRAYS OF SCALARS (JdProofs/DiffMinimal.lean): the counts "removed = |a| − LCS, added =
+  |b| − LCS", minimality among all matchings of equal-hash elements, and the shape of the hunks.
 
-  NOT CLAIMED HERE: the count "removed = |a| − LCS, added = |b| − LCS for arrays of scalars", and
-  "exactly one line of before- and one of after-context per hunk" as a statement about the shape
-  of the hunks. Both are checked by the oracle on the implementation (exhaustively on small scopes).
+  PART 3 (arrays whose elements may be CONTAINERS — objects, arrays, any nesting). Model function:
+  `diffM o a b` = `a.Diff(b)` with `dispatchTag o = .list`, `isMerge o = false` (list reading, strict
+  strategy); `diffNode o false x y p` is the recursive call on two nodes at path `p` (the SUB-DIFF).
+  Reference semantics of hunks: `Spec.applyStrict` / `applyStrictAll` / `splice` (JdSpec/HunkSem.lean).
+   3a RECURSION ("recurses into same-position containers of the same kind instead of replacing them")
+      * `same_kind_containers_are_recursed_into` (+ `…_every_hunk_in_a_sub_diff`): two arrays of equal
+        length, position by position containers of the same kind (`Rec.sameKinds`, decidable:
+        `sameContainerType` pairwise — two objects, or two arrays read the same way), no element of
+        the first with the hash code of an element of the second: `a.Diff(b)` IS the concatenation of
+        the sub-diffs at `[.idx i]`. There is no array-level hunk. No other hypothesis.
+      * `recursion_at_reached_position` (+ `array_level_hunks_spare_the_recursed_pair`): the general
+        case, stated along `Rec.Reach`, the cursor walk of `jsonList.diffRest` (the decisions of the
+        code without the hunks: both at the common sequence → step both; one of them → add / remove;
+        neither → same kind: recurse, else replace). If the walk reaches a position whose cursor
+        elements `x`, `y` are same-kind containers and neither is the next element of the remaining
+        common sequence (`DPL.atC … = false`), then `a.Diff(b) = D1 ++ (sub-diff of x, y at the index
+        of y) ++ D2`, no hunk of the sub-diff is an array-level hunk (`Rec.isTop []`: path of length
+        one, with context), and the array-level hunks of `D1` / `D2` only remove elements standing
+        before / after `x` and only add elements standing before / after `y`
+        (`Rec.removedTop`, `Rec.addedTop`: what the array-level hunks remove / add, in order):
+        no array-level hunk removes `x` or adds `y`. Hypothesis: the elements are list documents
+        (`listDocList`: no set / multiset typed node — what the readers produce in list mode).
+      * `sub_diff_stays_strictly_inside`: for documents as read from text (`rawDoc`) every hunk of the
+        sub-diff of two same-kind containers is addressed STRICTLY below the container: the
+        container is never replaced as a whole.
+   3b SHAPE ("every hunk that edits an array position carries exactly one line of before-context
+      and one of after-context")
+      * `array_hunks_are_array_level_or_in_a_sub_diff`: NO hypothesis on the elements. Every hunk of
+        the diff of two arrays is an array-level hunk (strict, path `[.idx i]`, one before- and one
+        after-context line, not empty) or belongs to the sub-diff at `[.idx j]` of two same-kind
+        containers `x ∈ xs`, `y = ys[j]`; `sub_diff_hunk_is_not_array_level`: on list documents the
+        two alternatives exclude each other.
+      * `hunk_shape_at_every_level`: `rawDoc` documents, every level of nesting: every hunk is strict;
+        a hunk whose path ends with a list index `i` has `0 ≤ i`, exactly one before- and one
+        after-context line and is not empty; every other hunk (root, object member) has no context.
+   3c CONTEXT = NEIGHBOURS ("equal to the neighbouring elements or the array boundary")
+      * operational, every level (`hunk_applies_where_it_is_addressed`,
+        `context_lines_are_the_neighbours`, `context_lines_are_the_neighbours_at_every_level`): split
+        `a.Diff(b) = D1 ++ h :: D2` anywhere with `h.path = q ++ [.idx i]`: `D1` applies to `a`, giving
+        `m`; the node of `m` at `q` (`Real.getAt`) is a list `l`; `splice l i h` succeeds; and
+        `Rec.CtxIsNeighbours l i h`: one context line on each side, the before-context `specEq` to
+        `l[i-1]` (the void boundary marker iff `i = 0`), the removed values `specEq` to `l[i…]`, the
+        after-context `specEq` to the element following them (the void marker at the end of `l`).
+        Hypotheses: those of the C01 list theorem, from which these are derived (`listDoc` / `rawDoc`;
+        `wf` sorted unique keys; finite numbers; `memOK` no void member; `HashOK` no FNV collision
+        between a sub-term of `a` and one of `b` — elements are matched by hash code, a collision
+        would make the before-context the colliding element of `b`; `ZeroOK` no `0` / `-0` pair;
+        `FloatLaws` reflexivity / symmetry of the opaque float comparison).
+      * static, top-level array (`context_lines_are_elements_of_the_arrays`): elements `DPL.GoodL`
+        (list documents, `wf`, finite numbers, no void member) and `Rec.NumHashOK` (numbers equal as
+        floats hash alike: true of all finite doubles; a hypothesis because `Float` is opaque to the
+        kernel). NO hash-collision hypothesis. Every hunk is `Real.Located [] xs ys`: `remove` a
+        contiguous run of `xs`, `add` the contiguous run of `ys` at the addressed index, `before`
+        LITERALLY the element of `ys` preceding it (void at the start), `after` LITERALLY the element
+        of `xs` following the removed run (void at the end) — or belongs to a sub-diff.
+      * WITNESS `context_is_not_the_neighbour_outside_wf`: OUTSIDE the domain (an object with a
+        duplicate key, which a Go map cannot hold) two same-kind containers with different hash codes
+        have an EMPTY sub-diff; the code then takes the after-context from the position after the
+        container; it is not the neighbour and the reference interpreter rejects the diff. This is
+        why `wf` is a hypothesis of 3c. No counterexample inside the domain.
+   3d COUNT BOUND (`container_array_counts_bounded_by_lcs`, `container_array_diff_no_worse_than_any_matching`):
+      the array-level hunks remove at most `|xs| − LCS` and add at most `|ys| − LCS` elements (LCS the
+      textbook length for the two hash lists), hence no more than ANY edit script that keeps a
+      common subsequence of equal-hash elements. For scalars Part 2 gives equality.
+
+  NOT PROVED / LIMITS (Part 3)
+    * 3a general is stated along `Reach` ("as the code decides it"); no static criterion on `xs`, `ys`
+      for a position to be reached is given beyond the special case of `sameKinds` + disjoint hashes;
+    * with containers the count is an upper bound (≤), not an equality: two same-kind containers with
+      different hash codes are recursed into instead of being counted, and what the sub-diffs remove /
+      add inside them is not counted against any optimum;
+    * the static form of 3c is stated for one array level (the top-level array); it is not threaded
+      through the nesting — the operational form is, but inherits `HashOK` and `ZeroOK`;
+    * list documents holding a typed `jsonList` element against a plain `jsonArray` element: the
+      sub-diff is a wholesale replacement (known, `Jd.diff_list_vs_array_nonempty`); it still is not
+      an array-level hunk; documents read from text (`rawDoc`) never contain such pairs;
+    * set / multiset readings and the merge strategy: C06 is a list-mode property.
 -/
 import JdProofs.LcsProofs
 import JdProofs.DiffMinimal
 import JdProofs.DiffPatchList
+import JdProofs.ListRecursion
+
+set_option autoImplicit false
 
 namespace Jd.Props.C06
 open Jd
@@ -109,5 +189,312 @@ theorem scalar_array_hunks_carry_one_line_of_context {o : Opts} (ho : dispatchTa
       h.before.length = 1 ∧ h.after.length = 1 ∧ (∃ i : Nat, h.path = [.idx i]) ∧
         h.merge = false ∧ (h.remove ≠ [] ∨ h.add ≠ []) :=
   diffM_hunk_shape ho hm xs ys ht ht' htt scalars
+
+/-! ## Part 3 — arrays whose elements may be containers (JdProofs/ListRecursion.lean)
+
+  Throughout: `o` with `dispatchTag o = .list` and `isMerge o = false` (list reading, strict
+  strategy); the hypotheses on the tags `t`, `t'` say that both arrays are plain `jsonArray`s or
+  `jsonList`s in a combination the dispatcher sends to the list diff. -/
+
+/-! ### 3a. recursion instead of replacement -/
+
+/-- **special case, no further hypothesis**: two arrays of equal length whose elements are, position
+    by position, containers of the same kind, no element of the first having the hash code of an
+    element of the second: `a.Diff(b)` is EXACTLY the concatenation of the sub-diffs of the pairs at
+    `[.idx i]`; there is no array-level hunk (nothing is replaced) -/
+theorem same_kind_containers_are_recursed_into {o : Opts} (ho : dispatchTag o = .list)
+    (hm : isMerge o = false) {t t' : Tag} (xs ys : List Json)
+    (ht : (t == .raw || t == .list) = true) (ht' : (t' == .raw || t' == .list) = true)
+    (htt : t = .raw ∨ t' = .list)
+    (same : Rec.sameKinds o xs ys = true)
+    (apart : ∀ x ∈ xs, ∀ y ∈ ys, hashCode o x ≠ hashCode o y) :
+    diffM o (.arr t xs) (.arr t' ys) =
+      ((xs.zip ys).zipIdx).flatMap
+        (fun q => diffNode o false q.1.1 q.1.2 [.idx (q.2 : Int)]) :=
+  Rec.diffM_same_kind_containers ho hm xs ys ht ht' htt same apart
+
+/-- in particular every hunk belongs to the sub-diff of the two elements at some position `i` and
+    its path starts with that index -/
+theorem same_kind_containers_every_hunk_in_a_sub_diff {o : Opts} (ho : dispatchTag o = .list)
+    (hm : isMerge o = false) {t t' : Tag} (xs ys : List Json)
+    (ht : (t == .raw || t == .list) = true) (ht' : (t' == .raw || t' == .list) = true)
+    (htt : t = .raw ∨ t' = .list)
+    (same : Rec.sameKinds o xs ys = true)
+    (apart : ∀ x ∈ xs, ∀ y ∈ ys, hashCode o x ≠ hashCode o y) :
+    ∀ h ∈ diffM o (.arr t xs) (.arr t' ys), ∃ (i : Nat) (x y : Json),
+      xs[i]? = some x ∧ ys[i]? = some y ∧ h ∈ diffNode o false x y [.idx (i : Int)] ∧
+        [PathElem.idx (i : Int)] <+: h.path :=
+  Rec.diffM_same_kind_containers_mem ho hm xs ys ht ht' htt same apart
+
+/-- **general case, along the cursor walk of the code** (`Rec.Reach`): wherever the walk meets two
+    same-kind containers `x`, `y`, neither of them the next element of the remaining common sequence,
+    the diff is `D1 ++ (sub-diff of x and y at the index of y) ++ D2`; no hunk of the sub-diff is an
+    array-level hunk; the array-level hunks of `D1` only remove elements standing before `x` and add
+    elements standing before `y`, those of `D2` only elements standing after them. So `x` is not
+    removed and `y` is not added: the pair is recursed into, not replaced. -/
+theorem recursion_at_reached_position {o : Opts} (ho : dispatchTag o = .list)
+    (hm : isMerge o = false) {t t' : Tag} (xs ys : List Json)
+    (ht : (t == .raw || t == .list) = true) (ht' : (t' == .raw || t' == .list) = true)
+    (htt : t = .raw ∨ t' = .list)
+    (hla : listDocList xs = true) (hlb : listDocList ys = true)
+    {x y : Json} {a' b' : List Json} {c : List UInt64}
+    (hr : Rec.Reach o xs ys (lcsValues (hashList o xs) (hashList o ys)) (x :: a') (y :: b') c)
+    (hA : DPL.atC o x c = false) (hB : DPL.atC o y c = false)
+    (hs : sameContainerType o x y = true) :
+    ∃ (D1 D2 : Diff) (preA preB : List Json),
+      xs = preA ++ x :: a' ∧ ys = preB ++ y :: b' ∧
+      diffM o (.arr t xs) (.arr t' ys) =
+        D1 ++ diffNode o false x y [.idx (preB.length : Int)] ++ D2 ∧
+      (∀ h ∈ diffNode o false x y [.idx (preB.length : Int)], Rec.isTop [] h = false) ∧
+      (Rec.removedTop [] D1).Sublist preA ∧ (Rec.addedTop [] D1).Sublist preB ∧
+      (Rec.removedTop [] D2).Sublist a' ∧ (Rec.addedTop [] D2).Sublist b' :=
+  Rec.diffM_recurses_at ho hm xs ys ht ht' htt hla hlb hr hA hB hs
+
+/-- the same about the whole diff: all array-level hunks together remove a sublist of `xs` with the
+    position of `x` taken out, and add a sublist of `ys` with the position of `y` taken out -/
+theorem array_level_hunks_spare_the_recursed_pair {o : Opts} (ho : dispatchTag o = .list)
+    (hm : isMerge o = false) {t t' : Tag} (xs ys : List Json)
+    (ht : (t == .raw || t == .list) = true) (ht' : (t' == .raw || t' == .list) = true)
+    (htt : t = .raw ∨ t' = .list)
+    (hla : listDocList xs = true) (hlb : listDocList ys = true)
+    {x y : Json} {a' b' : List Json} {c : List UInt64}
+    (hr : Rec.Reach o xs ys (lcsValues (hashList o xs) (hashList o ys)) (x :: a') (y :: b') c)
+    (hA : DPL.atC o x c = false) (hB : DPL.atC o y c = false)
+    (hs : sameContainerType o x y = true) :
+    ∃ (preA preB : List Json), xs = preA ++ x :: a' ∧ ys = preB ++ y :: b' ∧
+      (Rec.removedTop [] (diffM o (.arr t xs) (.arr t' ys))).Sublist (preA ++ a') ∧
+      (Rec.addedTop [] (diffM o (.arr t xs) (.arr t' ys))).Sublist (preB ++ b') :=
+  Rec.diffM_recurses_at_whole ho hm xs ys ht ht' htt hla hlb hr hA hB hs
+
+/-- documents as read from text: the sub-diff of two same-kind containers computed at `q` only has
+    strict hunks addressed STRICTLY inside the container (`q ++ r ++ [e]`): the container is never
+    replaced as a whole -/
+theorem sub_diff_stays_strictly_inside {o : Opts} (ho : dispatchTag o = .list) {x y : Json}
+    (hx : x.rawDoc = true) (hy : y.rawDoc = true) (hs : sameContainerType o x y = true)
+    (q : Path) : ∀ h ∈ diffNode o false x y q, h.merge = false ∧
+      ∃ (r : Path) (e : PathElem), h.path = q ++ r ++ [e] :=
+  Rec.sub_diff_strictly_inside ho hx hy hs q
+
+/-! ### 3b. shape of the hunks -/
+
+/-- two arrays with ARBITRARY elements: every hunk of `a.Diff(b)` is an array-level hunk — strict,
+    addressed to an index of the array, exactly one line of before- and one of after-context, removing
+    or adding at least one element — or belongs to the sub-diff, at `[.idx j]`, of two containers of
+    the same kind `x ∈ xs` and `y = ys[j]` -/
+theorem array_hunks_are_array_level_or_in_a_sub_diff {o : Opts} (ho : dispatchTag o = .list)
+    (hm : isMerge o = false) {t t' : Tag} (xs ys : List Json)
+    (ht : (t == .raw || t == .list) = true) (ht' : (t' == .raw || t' == .list) = true)
+    (htt : t = .raw ∨ t' = .list) :
+    ∀ h ∈ diffM o (.arr t xs) (.arr t' ys),
+      (h.before.length = 1 ∧ h.after.length = 1 ∧ (∃ i : Nat, h.path = [.idx i]) ∧
+        h.merge = false ∧ (h.remove ≠ [] ∨ h.add ≠ [])) ∨
+      (∃ (preA : List Json) (x : Json) (postA preB : List Json) (y : Json) (postB : List Json),
+        xs = preA ++ x :: postA ∧ ys = preB ++ y :: postB ∧ sameContainerType o x y = true ∧
+          h ∈ diffNode o false x y [.idx (preB.length : Int)]) :=
+  Rec.diffM_array_hunks ho hm xs ys ht ht' htt
+
+/-- on list documents the two alternatives exclude each other: a hunk of the sub-diff computed at
+    `p ++ [.idx j]` has a longer path, or carries no context at all (the wholesale replacement of a
+    typed `jsonList` by a plain `jsonArray`, which documents read from text never contain) -/
+theorem sub_diff_hunk_is_not_array_level {o : Opts} (ho : dispatchTag o = .list) {x y : Json}
+    (hx : x.listDoc = true) (hy : y.listDoc = true) (hs : sameContainerType o x y = true)
+    (p : Path) (j : Int) {h : Hunk} (hm : h ∈ diffNode o false x y (p ++ [.idx j])) :
+    (p ++ [PathElem.idx j]).length < h.path.length ∨ (h.before = [] ∧ h.after = []) :=
+  Rec.sub_hunk_not_array_level ho hx hy hs p j hm
+
+/-- **shape, every level**, documents as read from text (any nesting of objects and arrays): every
+    hunk is strict; a hunk whose path ends with a list index carries a non-negative index, exactly
+    one line of before-context and one of after-context and removes or adds at least one element;
+    every other hunk (root, object member) carries no context -/
+theorem hunk_shape_at_every_level {o : Opts} (ho : dispatchTag o = .list) (hm : isMerge o = false)
+    (a b : Json) (ha : a.rawDoc = true) (hb : b.rawDoc = true) :
+    ∀ h ∈ diffM o a b, h.merge = false ∧
+      (match h.path.getLast? with
+       | some (.idx i) =>
+         0 ≤ i ∧ h.before.length = 1 ∧ h.after.length = 1 ∧ (h.remove ≠ [] ∨ h.add ≠ [])
+       | _ => h.before = [] ∧ h.after = []) :=
+  Rec.diffM_hunk_shape_all_levels ho hm a b ha hb
+
+/-! ### 3c. the context lines are the neighbouring elements -/
+
+/-- **operational form, every level**: documents of the C01 list theorem, any nesting. Split
+    `a.Diff(b) = D1 ++ h :: D2` anywhere: the hunks before `h` apply to `a` and give `m`; the reference
+    interpreter accepts `h` on `m`; and when `h` is addressed to a list index (`q ++ [.idx i]`) the
+    node of `m` at `q` is a list into which `h` is spliced at `i`, with its removed values and its
+    context lines checked against the elements around the position (`splice` rejects any mismatch) -/
+theorem hunk_applies_where_it_is_addressed (L : Spec.FloatLaws) (o : Opts)
+    (ho : dispatchTag o = .list) (hm : isMerge o = false) (a b : Json)
+    (ha1 : a.listDoc = true) (ha2 : a.wf = true) (ha3 : a.finiteNums = true)
+    (ha4 : DPL.memOK a = true)
+    (hb1 : b.listDoc = true) (hb2 : b.wf = true) (hb3 : b.finiteNums = true)
+    (hb4 : DPL.memOK b = true)
+    (H : DPL.HashOK o a b) (Z : DPL.ZeroOK a b) (D1 : Diff) (h : Hunk) (D2 : Diff)
+    (hd : diffM o a b = D1 ++ h :: D2) :
+    ∃ m m', Spec.applyStrictAll a D1 = some m ∧ Spec.applyStrict m h.path h = some m' ∧
+      ∀ (q : Path) (i : Nat), h.path = q ++ [.idx (i : Int)] →
+        ∃ (t : Tag) (l l' : List Json), Real.getAt m q = some (.arr t l) ∧
+          Spec.splice l (i : Int) h = some l' :=
+  Rec.diffM_hunk_applies L o ho hm a b ha1 ha2 ha3 ha4 hb1 hb2 hb3 hb4 H Z D1 h D2 hd
+
+/-- **the context lines ARE the neighbours** (`Rec.CtxIsNeighbours`, spelled out in
+    `ctx_is_neighbours_unfolded`): for a hunk addressed to a list index with one context line on
+    each side (every array-level hunk has that shape, 3b), after the preceding hunks have been
+    applied the node at `q` is a list `l` in which the before-context equals `l[i-1]` (the boundary
+    marker when `i = 0`), the removed values equal `l[i], l[i+1], …`, and the after-context equals the
+    element following them (the boundary marker at the end of `l`) -/
+theorem context_lines_are_the_neighbours (L : Spec.FloatLaws) (o : Opts)
+    (ho : dispatchTag o = .list) (hm : isMerge o = false) (a b : Json)
+    (ha1 : a.listDoc = true) (ha2 : a.wf = true) (ha3 : a.finiteNums = true)
+    (ha4 : DPL.memOK a = true)
+    (hb1 : b.listDoc = true) (hb2 : b.wf = true) (hb3 : b.finiteNums = true)
+    (hb4 : DPL.memOK b = true)
+    (H : DPL.HashOK o a b) (Z : DPL.ZeroOK a b) (D1 : Diff) (h : Hunk) (D2 : Diff)
+    (hd : diffM o a b = D1 ++ h :: D2) (q : Path) (i : Nat) (hp : h.path = q ++ [.idx (i : Int)])
+    (hbl : h.before.length = 1) (hal : h.after.length = 1) :
+    ∃ (m : Json) (t : Tag) (l : List Json), Spec.applyStrictAll a D1 = some m ∧
+      Real.getAt m q = some (.arr t l) ∧ Rec.CtxIsNeighbours l i h :=
+  Rec.diffM_context_is_neighbours L o ho hm a b ha1 ha2 ha3 ha4 hb1 hb2 hb3 hb4 H Z D1 h D2 hd q i
+    hp hbl hal
+
+/-- **3b and 3c together, every level, documents as read from text**: if the path of a hunk `h` of
+    `a.Diff(b)` ends with a list index `i` — the hunk edits an array position — then, after the hunks
+    before it have been applied to `a`, the node at the path of `h` without its last element is a
+    list `l`, `0 ≤ i`, and `h` carries exactly one before- and one after-context line, equal to the
+    neighbours of the edited run in `l` or to the boundary marker -/
+theorem context_lines_are_the_neighbours_at_every_level (L : Spec.FloatLaws) (o : Opts)
+    (ho : dispatchTag o = .list) (hm : isMerge o = false) (a b : Json)
+    (ha1 : a.rawDoc = true) (ha2 : a.wf = true) (ha3 : a.finiteNums = true)
+    (ha4 : DPL.memOK a = true)
+    (hb1 : b.rawDoc = true) (hb2 : b.wf = true) (hb3 : b.finiteNums = true)
+    (hb4 : DPL.memOK b = true)
+    (H : DPL.HashOK o a b) (Z : DPL.ZeroOK a b) (D1 : Diff) (h : Hunk) (D2 : Diff)
+    (hd : diffM o a b = D1 ++ h :: D2) (i : Int) (hlast : h.path.getLast? = some (.idx i)) :
+    ∃ (m : Json) (t : Tag) (l : List Json), Spec.applyStrictAll a D1 = some m ∧
+      Real.getAt m h.path.dropLast = some (.arr t l) ∧ 0 ≤ i ∧ Rec.CtxIsNeighbours l i.toNat h :=
+  Rec.diffM_context_all_levels L o ho hm a b ha1 ha2 ha3 ha4 hb1 hb2 hb3 hb4 H Z D1 h D2 hd i hlast
+
+/-- what `Rec.CtxIsNeighbours l i h` says, field by field (so that the two theorems above can be read
+    without JdProofs/ListRecursion.lean): the removed run fits in `l` at `i` and equals the elements
+    there; there is exactly one before-context line `prev` and one after-context line `next`; `prev`
+    is the boundary marker when `i = 0` and otherwise equals `l[i-1]`; `next` equals the element
+    following the removed run, or is the boundary marker when the run ends the list -/
+theorem ctx_is_neighbours_unfolded {l : List Json} {i : Nat} {h : Hunk}
+    (c : Rec.CtxIsNeighbours l i h) :
+    i + h.remove.length ≤ l.length ∧
+    Spec.prefixEq h.remove (l.drop i) = true ∧
+    ∃ prev next, h.before = [prev] ∧ h.after = [next] ∧
+      (i = 0 → prev.isVoid = true) ∧
+      (∀ j, i = j + 1 → ∃ z, l[j]? = some z ∧ Spec.specEq prev z = true) ∧
+      (match l[i + h.remove.length]? with
+       | some z => Spec.specEq next z = true
+       | none => next.isVoid = true) := by
+  obtain ⟨h1, h2, prev, next, hb, ha, h3, h4⟩ := c
+  refine ⟨h1, h2, prev, next, hb, ha, ?_, ?_, h4⟩
+  · intro h0; subst h0; exact h3
+  · intro j hj; subst hj; exact h3
+
+/-- **static form, top-level array, NO hash-collision hypothesis**: every hunk of the diff of two
+    arrays of good elements is `Real.Located [] xs ys` — addressed to `[.idx i]`, `remove` a contiguous
+    run of `xs`, `add` the contiguous run of `ys` standing at index `i`, `before` LITERALLY the element
+    of `ys` just before that run (void at the start), `after` LITERALLY the element of `xs` following
+    the removed run (void at the end) — or belongs to the sub-diff of two same-kind containers -/
+theorem context_lines_are_elements_of_the_arrays {o : Opts} (ho : dispatchTag o = .list)
+    (hm : isMerge o = false) {t t' : Tag} (xs ys : List Json)
+    (ht : (t == .raw || t == .list) = true) (ht' : (t' == .raw || t' == .list) = true)
+    (htt : t = .raw ∨ t' = .list) (gx : DPL.GoodL xs) (gy : DPL.GoodL ys)
+    (Z : Rec.NumHashOK o (DPL.subtermsList xs) (DPL.subtermsList ys)) :
+    ∀ h ∈ diffM o (.arr t xs) (.arr t' ys),
+      Real.Located [] xs ys h ∨
+      (∃ (preA : List Json) (x : Json) (postA preB : List Json) (y : Json) (postB : List Json),
+        xs = preA ++ x :: postA ∧ ys = preB ++ y :: postB ∧ sameContainerType o x y = true ∧
+          h ∈ diffNode o false x y [.idx (preB.length : Int)]) :=
+  Rec.diffM_located_containers ho hm xs ys ht ht' htt gx gy Z
+
+/-- `Rec.NumHashOK` follows from the `0` / `-0` exclusion of the C01 domain -/
+theorem numHashOK_of_no_zero_pair {o : Opts} {S T : List Json}
+    (Z : ∀ u v, Json.num u ∈ S → Json.num v ∈ T → numWithin 0 u v = true → u = v) :
+    Rec.NumHashOK o S T :=
+  Rec.numHashOK_of_zero Z
+
+/-- **WITNESS, outside the domain** (why `wf` is a hypothesis of 3c): `["p", {"a":"u"}]` against
+    `["q", {"a":"u","a":"v"}]` — the second object has a duplicate key, which no Go map holds. The two
+    objects have different hash codes and an EMPTY sub-diff; the single hunk `@ [0] [ - "p" + "q" ]`
+    takes its after-context from the position after the object (the array end) instead of the
+    neighbour `{"a":"u"}`, and the reference interpreter rejects the diff. -/
+theorem context_is_not_the_neighbour_outside_wf :
+    (Json.arr .raw Rec.Example.yw).wf = false ∧
+    diffM [] (.arr .raw Rec.Example.xw) (.arr .raw Rec.Example.yw) =
+      [{ path := [.idx 0], before := [.void], remove := [.str "p"], add := [.str "q"],
+         after := [.void] }] ∧
+    Spec.applyStrictAll (.arr .raw Rec.Example.xw)
+      (diffM [] (.arr .raw Rec.Example.xw) (.arr .raw Rec.Example.yw)) = none :=
+  ⟨Rec.Example.nonwf_context_not_neighbour.1, Rec.Example.nonwf_diff,
+    Rec.Example.nonwf_context_not_neighbour.2⟩
+
+/-! ### 3d. the count bound with containers -/
+
+/-- the array-level hunks of `a.Diff(b)` remove at most `|xs| − LCS` and add at most `|ys| − LCS`
+    elements, LCS the textbook longest-common-subsequence length of the two hash lists (for arrays of
+    scalars `scalar_array_diff_counts` gives equality, and every hunk is array-level) -/
+theorem container_array_counts_bounded_by_lcs {o : Opts} (ho : dispatchTag o = .list)
+    (hm : isMerge o = false) {t t' : Tag} (xs ys : List Json)
+    (ht : (t == .raw || t == .list) = true) (ht' : (t' == .raw || t' == .list) = true)
+    (htt : t = .raw ∨ t' = .list)
+    (hla : listDocList xs = true) (hlb : listDocList ys = true) :
+    (Rec.removedTop [] (diffM o (.arr t xs) (.arr t' ys))).length ≤
+        xs.length - lcsLenSpec (hashList o xs) (hashList o ys) ∧
+    (Rec.addedTop [] (diffM o (.arr t xs) (.arr t' ys))).length ≤
+        ys.length - lcsLenSpec (hashList o xs) (hashList o ys) :=
+  Rec.diffM_top_removes_adds_le ho hm xs ys ht ht' htt hla hlb
+
+/-- hence no more than ANY edit script that keeps a common subsequence `c'` of equal-hash elements -/
+theorem container_array_diff_no_worse_than_any_matching {o : Opts} (ho : dispatchTag o = .list)
+    (hm : isMerge o = false) {t t' : Tag} (xs ys : List Json)
+    (ht : (t == .raw || t == .list) = true) (ht' : (t' == .raw || t' == .list) = true)
+    (htt : t = .raw ∨ t' = .list)
+    (hla : listDocList xs = true) (hlb : listDocList ys = true)
+    (c' : List UInt64) (h1 : c'.Sublist (hashList o xs)) (h2 : c'.Sublist (hashList o ys)) :
+    (Rec.removedTop [] (diffM o (.arr t xs) (.arr t' ys))).length ≤ xs.length - c'.length ∧
+    (Rec.addedTop [] (diffM o (.arr t xs) (.arr t' ys))).length ≤ ys.length - c'.length := by
+  have hc := lcsLenSpec_upper (hashList o xs) (hashList o ys) c' h1 h2
+  have hb := Rec.diffM_top_removes_adds_le ho hm xs ys ht ht' htt hla hlb
+  omega
+
+/-! ### Non-vacuity of Part 3 (documents of `Rec.Example`)
+
+  `xsE = [{"a":"u"}, ["p"]]`, `ysE = [{"a":"v"}, ["p","q"]]`: same kinds position by position, no hash
+  code in common, raw list documents, good elements, no number at all. The diff has two hunks, both
+  inside the elements: `@ [0,"a"] - "u" + "v"` and `@ [1,1] "p" + "q" ]`. -/
+
+example : Rec.sameKinds [] Rec.Example.xsE Rec.Example.ysE = true ∧
+    (∀ x ∈ Rec.Example.xsE, ∀ y ∈ Rec.Example.ysE, hashCode [] x ≠ hashCode [] y) :=
+  ⟨Rec.Example.same, Rec.Example.apart⟩
+
+example : diffM [] (.arr .raw Rec.Example.xsE) (.arr .raw Rec.Example.ysE) =
+    ((Rec.Example.xsE.zip Rec.Example.ysE).zipIdx).flatMap
+      (fun q => diffNode [] false q.1.1 q.1.2 [.idx (q.2 : Int)]) :=
+  same_kind_containers_are_recursed_into rfl rfl _ _ rfl rfl (.inl rfl) Rec.Example.same
+    Rec.Example.apart
+
+/-- the hypotheses of `recursion_at_reached_position` with a NON-empty common sequence:
+    `["k", {"a":"u"}, ["p"]]` against `["k", {"a":"v"}, ["p","q"]]`, the walk after the common `"k"` -/
+example : Rec.Reach [] (.str "k" :: Rec.Example.xsE) (.str "k" :: Rec.Example.ysE)
+    [hashCode [] (.str "k")] Rec.Example.xsE Rec.Example.ysE [] :=
+  Rec.Example.reachK
+
+/-- the hypotheses of the static context theorem -/
+example : DPL.GoodL Rec.Example.xsE ∧ DPL.GoodL Rec.Example.ysE :=
+  ⟨Rec.Example.goodX, Rec.Example.goodY⟩
+
+/-- the hypotheses of the operational context theorems: the three-hunk example of C01 (one hunk
+    inside a nested list) -/
+example (L : Spec.FloatLaws) (D1 : Diff) (h : Hunk) (D2 : Diff)
+    (hd : diffM [] DPL.Example.exA DPL.Example.exB = D1 ++ h :: D2) :
+    ∃ m m', Spec.applyStrictAll DPL.Example.exA D1 = some m ∧
+      Spec.applyStrict m h.path h = some m' := by
+  obtain ⟨h1, h2, h3, h4, h5, h6, h7, h8, h9, h10⟩ := DPL.Example.hyps L
+  obtain ⟨m, m', g1, g2, _⟩ :=
+    hunk_applies_where_it_is_addressed L [] rfl rfl _ _ h1 h2 h3 h4 h5 h6 h7 h8 h9 h10 D1 h D2 hd
+  exact ⟨m, m', g1, g2⟩
 
 end Jd.Props.C06
